@@ -1,2 +1,4 @@
 import MongoModel.Value
 import MongoModel.Wire
+import MongoModel.Bson
+import MongoModel.Filter
